@@ -160,4 +160,89 @@ def joinStep (pos depth : Nat) : Res Step :=
   if pos < depth then .error .valueError
   else .ok (.replace (pos - depth) (pos + depth) Slice.empty true)
 
+/-! ### the guard of "an approved wrap applies" (Props/C12.lean `findWrapping_wrap_applies`) -/
+
+/-- what `find_wrapping` does not look at: it walks the innermost wrapper's automaton over the *types* of the
+    nodes of the range (`find_wrapping_inside`), the wrap itself asks `can_replace` of that wrapper
+    (`Slice.insert_at` → `insert_into`), which also wants the wrapper to allow the *marks* of every node of the
+    range.  (First conjunct: no wrapper type is a leaf type.  In a compiled schema a leaf type has no content
+    edges, so `find_wrapping` never approves one; the model's schema tables do not enforce that.) -/
+def wrapGuardR (S : Schema) (f t : RPos) (depth : Nat) (wrappers : List (TypeId × Attrs)) : Bool :=
+  wrappers.all (fun w => !(S.nodeType w.1).isLeaf) &&
+  match wrappers.getLast? with
+  | some w =>
+    (cutByIndex (f.node depth).kids (f.index depth) (t.indexAfter depth)).all
+      (fun k => (S.nodeType w.1).allowsMarks k.marks)
+  | none => false
+
+def wrapGuard (S : Schema) (doc : Node) (a b depth : Nat) (wrappers : List (TypeId × Attrs)) : Bool :=
+  match doc.resolve a, doc.resolve b with
+  | some f, some t => wrapGuardR S f t depth wrappers
+  | _, _ => true
+
+/-- … and what it does not look at either: `Transform.wrap` wants every wrapper to accept the next one as its
+    *only* child (`match_fragment(content).valid_end`, a `TransformError` otherwise).  The chain `find_wrapping`
+    returns is `around ++ [type] ++ inside`, the results of two separate searches; `compute_wrapping` ends a
+    search as soon as `match_type(target)` succeeds, so the last wrapper of `around` need only accept `type`
+    as *first* child, and `type` need only accept the first wrapper of `inside` as first child.  (Also here:
+    the attributes given for `type` are complete and `type` is not the text type, both `ValueError` in
+    `NodeType.create`.)  This is "building the step succeeds", on the wrappers alone. -/
+def wrapBuilds (S : Schema) (wrappers : List (TypeId × Attrs)) : Bool :=
+  match wrapContent S wrappers with
+  | .ok _ => true
+  | .error _ => false
+/-! ### lift: the guard of "an approved lift applies" when nothing has to be split -/
+
+/-- the lift splits nothing: at every level `d` with `target < d ≤ depth` the range starts at the first
+    child (`from.index(d) == 0`) and ends at the last (`to.after(d + 1) == to.end(d)`), i.e. the two tests of the
+    `while d > target` loops of `lift` are false throughout and both loops only move the outer positions -/
+def liftFlatGuardR (f t : RPos) (depth target : Nat) : Bool :=
+  (List.range (depth - target)).all fun i =>
+    !decide (0 < f.index (target + i + 1)) &&
+      !decide (t.afterT (target + i + 1 + 1) < t.end_ (target + i + 1))
+
+def liftFlatGuard (doc : Node) (a b depth target : Nat) : Bool :=
+  match doc.resolve a, doc.resolve b with
+  | some f, some t => liftFlatGuardR f t depth target
+  | _, _ => true
+
+/-! ### lift: the guard of "an approved lift applies" in general -/
+
+/-- one side of the split a lift performs, recomputed level by level (the loop shape of `liftSide`): the node
+    the split leaves behind at the current level (`none` while nothing is split) and whether every such node so
+    far is valid content for its type.  `keep d` = the children of `node(d)` that stay on this side (before the
+    range on the left, after it on the right); `put` places the copy left one level deeper among them (last on the
+    left, first on the right). -/
+def liftPieces (S : Schema) (nodeAt : Nat → Node) (splitsAt : Nat → Bool) (keep : Nat → List Node)
+    (put : List Node → List Node → List Node) (target : Nat) : Nat → Option Node → Bool → Option Node × Bool
+  | 0, acc, ok => (acc, ok)
+  | n + 1, acc, ok =>
+    let d := target + n + 1
+    if acc.isSome || splitsAt d then
+      let kids := put (keep d) acc.toList
+      liftPieces S nodeAt splitsAt keep put target n (some ((nodeAt d).withKids kids))
+        (ok && S.validContent (S.tyOf (nodeAt d)) kids)
+    else liftPieces S nodeAt splitsAt keep put target n none ok
+
+/-- what neither `can_cut` nor `lift_target`'s `can_replace(index, end_index, content)` looks at: every node the
+    split leaves behind — on the left the children before the range plus the copy left one level deeper, on the
+    right that copy plus the children after the range — is valid content for its type, and the node at `target`
+    accepts its new child list *with the two copies in place*: children before, left copy, the lifted nodes, right
+    copy, children after.  (When nothing is split this is the approval itself.) -/
+def liftGuardR (S : Schema) (f t : RPos) (depth target : Nat) : Bool :=
+  let (left, okL) := liftPieces S f.node (fun d => decide (0 < f.index d))
+    (fun d => (f.node d).kids.take (f.index d)) (fun k c => k ++ c) target (depth - target) none true
+  let (right, okR) := liftPieces S t.node (fun d => decide (t.afterT (d + 1) < t.end_ d))
+    (fun d => (t.node d).kids.drop (t.indexAfter d)) (fun k c => c ++ k) target (depth - target) none true
+  let node := f.node target
+  let mid := cutByIndex (f.node depth).kids (f.index depth) (t.indexAfter depth)
+  okL && okR &&
+    S.validContent (S.tyOf node)
+      (node.kids.take (f.index target) ++ left.toList ++ mid ++ right.toList ++ node.kids.drop (t.indexAfter target))
+
+def liftGuard (S : Schema) (doc : Node) (a b depth target : Nat) : Bool :=
+  match doc.resolve a, doc.resolve b with
+  | some f, some t => liftGuardR S f t depth target
+  | _, _ => true
+
 end PM
